@@ -56,6 +56,11 @@ def scenarios(tier, seed=0):
     for name in ("PaddyRice", "localpaddy") if tier != "quick" else ("PaddyRice",):
         spec = A.catalogue_spec(name, word="wet", soil="Paddy", field="bunds200", iwc="SAT", irr="smt")
         yield {"kind": "spec", "spec": spec, "label": ["paddy-full-length", name]}
+    # (b2'') the top-soil depth of the root-zone totals (Soil z_top) off a compartment boundary, roots growing beyond it
+    for ztop, dz, ck in itertools.product((0.25, 0.13, 0.37), ("d12", "nonuni", "d15x9"), ("maize.2", "cotton.2")):
+        c = A._b(crop=ck, dz=dz, word="showers", win="w2", soil="ClayLoam", irr="smt")
+        c["soilkw"] = {"z_top": ztop}
+        yield {"kind": "config", "config": c}
     # (b3) extreme records on simulated days (reference ET below the 0.1 mm floor of the file reader, frost, a tropical night, a storm):
     # a per-day "sanity" adjustment may not be written back into the stored records
     for off in (False, True):
